@@ -4,11 +4,13 @@
                                                      against the patched worktree, store under /verif/seeded/<name>/
    tools/mutant.py run <dir> <Cxx> [tier] [seed]     : only run the check against the patched worktree"""
 import json, os, subprocess, sys, shutil, time, tempfile
+VERIF = os.path.dirname(os.path.dirname(os.path.abspath(__file__)))
 
 def sh(cmd, **kw):
     return subprocess.run(cmd, capture_output=True, text=True, **kw)
 
 def make_wt(tag):
+    os.makedirs('/tmp/mut', exist_ok=True)
     wt = '/tmp/mut/wt-%s-%d' % (tag, os.getpid())
     sh(['git', '-C', '/repo', 'worktree', 'add', '--detach', wt, 'HEAD'])
     return wt
@@ -32,7 +34,7 @@ def run_check(wt, pid, tier='quick', seed='0'):
     tmp = tempfile.mkdtemp(prefix='mutrun-')
     env = dict(os.environ, VERIF_REPO=wt, VERIF_EVIDENCE_DIR=tmp + '/ev', VERIF_REPLAY_DIR=tmp + '/rp')
     t = time.time()
-    r = sh(['./check', pid, '--tier', tier, '--seed', seed], cwd='/verif', env=env, timeout=3600)
+    r = sh(['./check', pid, '--tier', tier, '--seed', seed], cwd=VERIF, env=env, timeout=3600)
     lines = [l for l in r.stdout.split('\n') if l.startswith(('VIOLATION', '  mechanism', 'INCONCLUSIVE', 'KNOWN'))]
     shutil.rmtree(tmp, ignore_errors=True)
     return {'check': pid, 'tier': tier, 'seed': int(seed), 'rc': r.returncode, 'wall_s': round(time.time() - t, 1), 'lines': lines[:6]}
